@@ -16,4 +16,5 @@ pub mod sched;
 pub mod slots;
 pub mod stub;
 pub mod types;
+pub mod watch;
 pub mod yelem;
